@@ -7,7 +7,6 @@ import (
 	"encoding/json"
 	"fmt"
 	"sort"
-	"strings"
 
 	"verifharness/internal/coqfmt"
 )
@@ -92,175 +91,6 @@ func q(s string) string {
 
 func isScalar(d *doc) bool {
 	return d.kind == dBool || d.kind == dInt || d.kind == dStr || d.kind == dTime
-}
-
-func scalarText(d *doc) string {
-	switch d.kind {
-	case dBool:
-		if d.b {
-			return "true"
-		}
-		return "false"
-	case dInt:
-		return d.intText()
-	default:
-		return q(d.s)
-	}
-}
-
-// ---- JSON ----
-func toJSON(d *doc) string {
-	switch d.kind {
-	case dList:
-		parts := make([]string, len(d.list))
-		for i, e := range d.list {
-			parts[i] = toJSON(e)
-		}
-		return "[" + strings.Join(parts, ", ") + "]"
-	case dMap:
-		parts := make([]string, len(d.kvs))
-		for i, e := range d.kvs {
-			parts[i] = q(e.k) + ": " + toJSON(e.v)
-		}
-		return "{" + strings.Join(parts, ", ") + "}"
-	}
-	return scalarText(d)
-}
-
-// ---- Cue: fields without braces at top level, struct and list literals below ----
-func cueLabel(k string) string {
-	ok := k != ""
-	for i, c := range k {
-		if !(c == '_' || c >= 'a' && c <= 'z' || c >= 'A' && c <= 'Z' || (i > 0 && c >= '0' && c <= '9')) {
-			ok = false
-		}
-	}
-	if ok && !strings.HasPrefix(k, "_") && !cueKeyword[k] {
-		return k
-	}
-	return q(k)
-}
-
-var cueKeyword = map[string]bool{"true": true, "false": true, "null": true, "for": true, "in": true, "if": true, "let": true,
-	"package": true, "import": true, "div": true, "mod": true, "quo": true, "rem": true, "string": true, "int": true,
-	"bool": true, "float": true, "number": true, "bytes": true, "len": true, "close": true, "and": true, "or": true}
-
-func toCue(d *doc, top bool) string {
-	switch d.kind {
-	case dList:
-		parts := make([]string, len(d.list))
-		for i, e := range d.list {
-			parts[i] = toCue(e, false)
-		}
-		return "[" + strings.Join(parts, ", ") + "]"
-	case dMap:
-		parts := make([]string, len(d.kvs))
-		for i, e := range d.kvs {
-			parts[i] = cueLabel(e.k) + ": " + toCue(e.v, false)
-		}
-		if top {
-			return strings.Join(parts, "\n") + "\n"
-		}
-		return "{" + strings.Join(parts, ", ") + "}"
-	}
-	return scalarText(d)
-}
-
-// ---- YAML: block mappings, flow sequences of scalars, block sequences of mappings ----
-func yamlKey(k string) string { return q(k) }
-
-func toYAML(d *doc, indent int) string {
-	pad := strings.Repeat("  ", indent)
-	switch d.kind {
-	case dMap:
-		if len(d.kvs) == 0 {
-			return pad + "{}\n"
-		}
-		var sb strings.Builder
-		for _, e := range d.kvs {
-			switch {
-			case isScalar(e.v):
-				sb.WriteString(pad + yamlKey(e.k) + ": " + scalarText(e.v) + "\n")
-			case e.v.kind == dMap && len(e.v.kvs) == 0:
-				sb.WriteString(pad + yamlKey(e.k) + ": {}\n")
-			case e.v.kind == dList && (len(e.v.list) == 0 || isScalar(e.v.list[0])):
-				sb.WriteString(pad + yamlKey(e.k) + ": " + toJSON(e.v) + "\n")
-			case e.v.kind == dList:
-				sb.WriteString(pad + yamlKey(e.k) + ":\n")
-				for _, it := range e.v.list {
-					body := toYAML(it, indent+2)
-					// turn the first line's indentation into "- "
-					trim := strings.TrimPrefix(body, strings.Repeat("  ", indent+2))
-					sb.WriteString(pad + "  - " + trim)
-				}
-			default:
-				sb.WriteString(pad + yamlKey(e.k) + ":\n" + toYAML(e.v, indent+1))
-			}
-		}
-		return sb.String()
-	}
-	return pad + toJSON(d) + "\n"
-}
-
-// ---- TOML: scalars and arrays first, then tables and arrays of tables ----
-func tomlKey(k string) string {
-	ok := k != ""
-	for _, c := range k {
-		if !(c == '_' || c == '-' || c >= 'a' && c <= 'z' || c >= 'A' && c <= 'Z' || c >= '0' && c <= '9') {
-			ok = false
-		}
-	}
-	if ok {
-		return k
-	}
-	return q(k)
-}
-
-func tomlInline(d *doc) string {
-	switch d.kind {
-	case dTime:
-		return d.s
-	case dList:
-		parts := make([]string, len(d.list))
-		for i, e := range d.list {
-			parts[i] = tomlInline(e)
-		}
-		return "[" + strings.Join(parts, ", ") + "]"
-	case dMap:
-		parts := make([]string, len(d.kvs))
-		for i, e := range d.kvs {
-			parts[i] = tomlKey(e.k) + " = " + tomlInline(e.v)
-		}
-		return "{ " + strings.Join(parts, ", ") + " }"
-	}
-	return scalarText(d)
-}
-
-func toTOML(d *doc, path []string, sb *strings.Builder) {
-	for _, e := range d.kvs {
-		if isScalar(e.v) || (e.v.kind == dList && (len(e.v.list) == 0 || e.v.list[0].kind != dMap)) {
-			sb.WriteString(tomlKey(e.k) + " = " + tomlInline(e.v) + "\n")
-		}
-	}
-	for _, e := range d.kvs {
-		p := append(append([]string{}, path...), tomlKey(e.k))
-		switch {
-		case e.v.kind == dMap:
-			sb.WriteString("\n[" + strings.Join(p, ".") + "]\n")
-			toTOML(e.v, p, sb)
-		case e.v.kind == dList && len(e.v.list) > 0 && e.v.list[0].kind == dMap:
-			for _, it := range e.v.list {
-				sb.WriteString("\n[[" + strings.Join(p, ".") + "]]\n")
-				toTOML(it, p, sb)
-			}
-		}
-	}
-}
-
-func renderTOML(d *doc) string {
-	var sb strings.Builder
-	toTOML(d, nil, &sb)
-	return sb.String()
 }
 
 func sortedKeys(m map[string]*doc) []string {
